@@ -604,8 +604,36 @@ func sigtermTrial(r *vh.Run, bin string, i int) {
 	mu.Lock()
 	nAtSignal := len(acked)
 	mu.Unlock()
+	// a connection that has sent its request line before the signal and completes the header once the listener is
+	// closed: the server leaves such a connection alone, so the request runs next to the shutdown
+	var late net.Conn
+	if (i/4)%2 == 0 {
+		if cn, err := net.DialTimeout("tcp", fmt.Sprintf("127.0.0.1:%d", p.port), time.Second); err == nil {
+			late = cn
+			_, _ = late.Write([]byte("GET /v2/ HTTP/1.1\r\nHost: x\r\nConnection: close\r\n"))
+			r.Count("late_header_connections", 1)
+		}
+	}
 	_ = p.cmd.Process.Signal(syscall.SIGTERM)
 	close(signalled)
+	if late != nil {
+		wg.Add(1)
+		go func() {
+			defer wg.Done()
+			for k := 0; k < 3000; k++ {
+				cn, err := net.DialTimeout("tcp", fmt.Sprintf("127.0.0.1:%d", p.port), 100*time.Millisecond)
+				if err != nil {
+					break
+				}
+				_ = cn.Close()
+				time.Sleep(time.Millisecond)
+			}
+			_, _ = late.Write([]byte("\r\n"))
+			_ = late.SetReadDeadline(time.Now().Add(40 * time.Second))
+			_, _ = io.ReadAll(late)
+			_ = late.Close()
+		}()
+	}
 	ok, dump := p.term(30 * time.Second)
 	stop.Store(true)
 	wg.Wait()
